@@ -5,6 +5,7 @@ import (
 	"fmt"
 	"io"
 	"reflect"
+	"sort"
 	"testing"
 
 	"github.com/bluenviron/gomavlib/v3/pkg/dialect"
@@ -48,6 +49,20 @@ func newGateEnv(msgs []*msgInfo) (*gateEnv, error) {
 	drw, err := newDialectRW(list...)
 	g.drw = drw
 	return g, err
+}
+
+// sorted returns the dialect's message types in id order (map iteration order is random: case lists must depend on the seed only).
+func (g *gateEnv) sorted() []*msgInfo {
+	ids := make([]int, 0, len(g.layouts))
+	for id := range g.layouts {
+		ids = append(ids, int(id))
+	}
+	sort.Ints(ids)
+	out := make([]*msgInfo, 0, len(ids))
+	for _, id := range ids {
+		out = append(out, g.layouts[uint32(id)])
+	}
+	return out
 }
 
 // justified reports whether a decoded frame delivered by the reader is backed by the stream:
@@ -281,7 +296,7 @@ func TestC02(t *testing.T) {
 		})
 	}
 
-	for _, mi := range genv.layouts {
+	for _, mi := range genv.sorted() {
 		for _, version := range []int{1, 2} {
 			if version == 1 && mi.Msg.GetID() > 255 {
 				continue
@@ -397,7 +412,7 @@ func TestC02(t *testing.T) {
 	// frames (longer than the reader's buffer) must be delivered in order with the right value, whatever the chunking
 	{
 		var list []*msgInfo
-		for _, mi := range genv.layouts {
+		for _, mi := range genv.sorted() {
 			list = append(list, mi)
 		}
 		nStreams := vh.Pick(40, 2000)
